@@ -2,9 +2,11 @@ package main
 
 import (
 	"fmt"
+	"go/constant"
 	"go/token"
 	"go/types"
 	"os"
+	"reflect"
 	"sort"
 	"strings"
 
@@ -18,6 +20,7 @@ const (
 	c30Proto   = "felix/proto"
 	c30PSGo    = "felix/dataplane/windows/policysets/policysets.go"
 	c30PMgrGo  = "felix/dataplane/windows/policy_mgr.go"
+	c30FlatGo  = "felix/dataplane/windows/flattener.go"
 	c30RuleFn  = "PolicySets.protoRuleToHnsRules"
 	c30RulesFn = "PolicySets.protoRulesToHnsRules"
 )
@@ -26,15 +29,20 @@ func init() {
 	register(&Property{
 		ID:        "C30",
 		Title:     "Windows rule flattening preserves policy verdicts for supported rules",
-		Technique: "static analysis: go/types field universe of proto.Rule, SSA reject-edge analysis (positive test ⇒ only ErrNotSupported returns), field-/context-/branch-sensitive backward provenance slicing of hns.ACLPolicy fields per direction, phi-closure analysis of the priority counter, bounded evaluation of the SSA of the list chunkers (all lengths 0..3k+1, sizes 1..4), backward pointer-provenance of the rules handed out of the policy-set cache",
+		Technique: "static analysis: go/types field universe of proto.Rule, SSA reject-edge analysis (positive test ⇒ only ErrNotSupported returns), field-/context-/branch-sensitive backward provenance slicing of hns.ACLPolicy fields per direction, phi-closure analysis of the priority counter, bounded evaluation of the SSA of the list chunkers (all lengths 0..3k+1, sizes 1..4), backward pointer-provenance of the rules handed out of the policy-set cache; tier flattener: cut-set guard analysis of the criterion-intersection helpers with a type-checked table of population vs capacity accessors and a data-dependence slice (incl. in-place effects) of the tested value, go/constant value of the port bitset capacity, bounded evaluation of the SSA of the rule combiner over a struct model per criterion field (helpers modelled by contract); reverse index: backward slice from IPSetCache.GetIPSetMembers to proto.Rule fields vs fields read by the producers of policySet.IpSetIds",
 		DesignRef: "DESIGN.md §3 C30",
 		Explanation: "Decides structural necessary conditions on felix/dataplane/windows/policysets: " +
 			"(unsupported) the match-field universe of proto.Rule is computed from the generated struct; every Not* field is rejected: a positive test of it (len>0 / !=nil) leads only to `return true` in a bool helper whose true result leads only to returns of ErrNotSupported in protoRuleToHnsRules; " +
 			"every other match field is either rejected the same way (ICMP, named-port IP sets) or consumed (it reaches a match field of the generated hns.ACLPolicy), except the application-layer fields listed with a reason; " +
 			"(dir) under isInbound the generated rules' RemoteAddresses/RemotePorts derive from the rule's source nets/IP sets/ports of Policy/Profile.InboundRules and LocalAddresses/LocalPorts from the destination ones, Direction is the constant In; mirrored (OutboundRules, Out) otherwise; Protocol derives from Rule.Protocol; nothing else reaches these fields; " +
 			"(prio) in GetPolicySetRules the priority written into each copied rule comes from a counter that starts at PolicyRuleBasePriority, only ever grows, is bumped on every edge where the previous rule's Action differs from the next rule's Action, and the end-of-tier rule gets a strictly larger priority; " +
-			"(ids) the policy manager uses the same id function and prefix for update and remove of policies / profiles and skips staged policies on both.",
-		NotDecided: "HNS's own evaluation order for equal priorities; that intersecting CIDRs with IP-set members preserves the match set (IntersectCIDRs); the chunkers beyond the evaluated bound (lengths up to 13, sizes up to 4 — the arithmetic is uniform in both, but this is a small-scope argument, not a proof) and that the four nested loops really form the cross product of the chunks; the static ACL rules (PolicySets.staticACLRules) are handed out uncopied — harmless today only because their action is validated to be Allow/Block and rewritePriorities overwrites every priority; uint16 overflow of the priority; " +
+			"(ids) the policy manager uses the same id function and prefix for update and remove of policies / profiles and skips staged policies on both; " +
+			"(emptyset) in the flattener's criterion-intersection helpers (combinePorts, combineCIDRs: every func(a, b T) (T, error) of the package reached from the rule combiner that can return ErrRuleIsNoOp) every return of ErrRuleIsNoOp lies behind a population test (BitSet.None/!Any/Count==0, len()==0, ==\"\" — resolved through the type checker; BitSet.Len and cap are capacity accessors and do not count) of a value that depends on both operands, a computed criterion is returned with nil error only behind the opposite test, and an operand is returned unchanged only where the other operand is empty (F20); " +
+			"(portspace) the constant capacity of every bitset created for port lists is ≥ 65537, so bit 65536 is a clear sentinel and the end-of-range search cannot fail (F21); " +
+			"(combine) the rule combiner, evaluated for each match-criterion field of ACLPolicy that the rule generators write (Protocol with its 'any' value taken from NewRule, the address and port lists with \"\" as any) on any/any, x/any, any/x, x/x, x/y, y/x, returns the intersection, nil for different specific values, leaves other criteria alone, keeps the next-tier rule's Action and does not modify its operands; " +
+			"(refidx) every proto.Rule field whose ids reach IPSetCache.GetIPSetMembers is read by the functions building the reverse index policySet.IpSetIds, and every rule list rendered into policySet.Members is handed to them.",
+		NotDecided: "the criterion-intersection helpers beyond the three structural conditions (that combinePorts renders every set bit as a range, that IntersectCIDRs is an intersection; the combiner is checked against their contract, not their bodies); port numbers above 65535 in a rule string; that flattenTiers applies the combiner to every pass rule × next-tier rule in order; rewritePriorities; " +
+			"HNS's own evaluation order for equal priorities; that intersecting CIDRs with IP-set members preserves the match set (IntersectCIDRs); the chunkers beyond the evaluated bound (lengths up to 13, sizes up to 4 — the arithmetic is uniform in both, but this is a small-scope argument, not a proof) and that the four nested loops really form the cross product of the chunks; the static ACL rules (PolicySets.staticACLRules) are handed out uncopied — harmless today only because their action is validated to be Allow/Block and rewritePriorities overwrites every priority; uint16 overflow of the priority; " +
 			"the action mapping allow/deny/pass (control dependence); DstIpPortSetIds are written to the Remote side in both directions — correct only because the API validator restricts destination service matches to egress rules (assumption); " +
 			"HttpMatch and Src/DstServiceAccountMatch are neither consumed nor rejected on Windows (listed exemption: L7 criteria that no Felix dataplane enforces in the kernel; service-account matches are additionally folded into the selector IP sets).",
 		Assumptions: []string{
@@ -42,6 +50,8 @@ func init() {
 			"data dependence only: opaque callees (strings.Join, fmt.Sprintf, iputils.IntersectCIDRs, IPSetCache.GetIPSetMembers, proto.Clone) derive their result from all their arguments and nothing else",
 			"API validation admits destination service matches (DstIpPortSetIds) only in egress rules",
 			"logrus Panic* does not return",
+			"bits-and-blooms/bitset: None/Any/Count/IntersectionCardinality measure the set bits, Len the capacity; New(n) gives bits 0..n-1 and Set only grows the set to the bit set; ports in rule strings are ≤ 65535",
+			"contract of a criterion-intersection helper h used when evaluating the combiner: h(\"\",b)=b, h(a,\"\")=a, h(a,a)=a, otherwise (\"\", ErrRuleIsNoOp); package-level error sentinels are non-nil and never reassigned",
 			"the SSA evaluator's model of ints, slices (shared backing arrays, append in place when capacity allows), min/max/len/cap/append/copy",
 		},
 		Run: runC30,
@@ -84,6 +94,32 @@ func init() {
 				Expect: "C30.alias/PolicySets.GetPolicySetRules"},
 			{Name: "a single policy set's cached rule list returned as is", File: c30PSGo,
 				Old: "\t\tfor _, member := range policySet.Members {\n", New: "\t\tif len(setIds) == 1 && len(rules) == 0 {\n\t\t\trules = append(rules, policySet.Members...)\n\t\t\tbreak\n\t\t}\n\t\tfor _, member := range policySet.Members {\n", Expect: "C30.alias/PolicySets.GetPolicySetRules"},
+			{Name: "F20 again: the port combiner decides 'disjoint' on the bitset's capacity", File: c30FlatGo,
+				Old: "\tif aBitset.None() {", New: "\tif aBitset.Len() == 0 {", Expect: "C30.emptyset/combinePorts/noop"},
+			{Name: "CIDR combiner tests an operand instead of the intersection", File: c30FlatGo,
+				Old: "\tif combined == \"\" {", New: "\tif as == \"\" {", Expect: "C30.emptyset/combineCIDRs/noop"},
+			{Name: "CIDR combiner returns the empty operand instead of the other one", File: c30FlatGo,
+				Old: "func combineCIDRs(as, bs string) (string, error) {\n\tif len(as) == 0 {\n\t\treturn bs, nil", New: "func combineCIDRs(as, bs string) (string, error) {\n\tif len(as) == 0 {\n\t\treturn as, nil", Expect: "C30.emptyset/combineCIDRs/operand"},
+			{Name: "F21 again: port bitset sized with XOR instead of a shift", File: c30FlatGo,
+				Old: "bitset.New(1<<16 + 1)", New: "bitset.New(2 ^ 16 + 1)", Expect: "C30.portspace/parsePorts"},
+			{Name: "port bitset has no sentinel bit above the highest port", File: c30FlatGo,
+				Old: "bitset.New(1<<16 + 1)", New: "bitset.New(1 << 16)", Expect: "C30.portspace/parsePorts"},
+			{Name: "different specific protocols no longer make the combination a no-op", File: c30FlatGo,
+				Old: "\t\tif r2.Protocol == 256 {\n\t\t\tcombined.Protocol = r1.Protocol\n\t\t} else if r1.Protocol != r2.Protocol {\n\t\t\treturn nil\n\t\t}", New: "\t\tif r2.Protocol == 256 {\n\t\t\tcombined.Protocol = r1.Protocol\n\t\t}", Expect: "C30.combine/ACLPolicy.Protocol"},
+			{Name: "disjoint remote ports ignored when combining rules", File: c30FlatGo,
+				Old: "\tcombined.RemotePorts, err = combinePorts(r1.RemotePorts, r2.RemotePorts)\n\tif err == policysets.ErrRuleIsNoOp {\n\t\treturn nil\n\t}\n", New: "\tcombined.RemotePorts, _ = combinePorts(r1.RemotePorts, r2.RemotePorts)\n", Expect: "C30.combine/ACLPolicy.RemotePorts"},
+			{Name: "local ports of the next tier intersected with the pass rule's remote ports", File: c30FlatGo,
+				Old: "combinePorts(r1.LocalPorts, r2.LocalPorts)", New: "combinePorts(r1.RemotePorts, r2.LocalPorts)", Expect: "C30.combine/ACLPolicy.LocalPorts"},
+			{Name: "pass rule's remote addresses not intersected at all", File: c30FlatGo,
+				Old: "\tcombined.RemoteAddresses, err = combineCIDRs(r1.RemoteAddresses, r2.RemoteAddresses)\n\tif err == policysets.ErrRuleIsNoOp {\n\t\treturn nil\n\t}\n", New: "", Expect: "C30.combine/ACLPolicy.RemoteAddresses"},
+			{Name: "combined rule built from the pass rule (keeps the pass action)", File: c30FlatGo,
+				Old: "\tcombined := *r2\n", New: "\tcombined := *r1\n", Expect: "C30.combine/ACLPolicy.Action"},
+			{Name: "next-tier rule narrowed in place instead of copied", File: c30FlatGo,
+				Old: "\treturn &combined\n}", New: "\t*r2 = combined\n\treturn r2\n}", Expect: "C30.combine/operands-unchanged"},
+			{Name: "ip,port sets missing from the reverse index of policy sets", File: c30PSGo,
+				Old: "\t\tipSetIds.AddAll(rule.DstIpPortSetIds)\n", New: "", Expect: "C30.refidx/Rule.DstIpPortSetIds"},
+			{Name: "profile's outbound rules not scanned for IP-set references", File: c30PSGo,
+				Old: "log.Debug(\"Policy set represents a Profile\")\n\t\trules = s.convertPolicyToRules(setId, p.InboundRules, p.OutboundRules)\n\t\tpolicyIpSetIds = getReferencedIpSetIds(p.InboundRules, p.OutboundRules)", New: "log.Debug(\"Policy set represents a Profile\")\n\t\trules = s.convertPolicyToRules(setId, p.InboundRules, p.OutboundRules)\n\t\tpolicyIpSetIds = getReferencedIpSetIds(p.InboundRules, p.InboundRules)", Expect: "C30.refidx/Profile.OutboundRules"},
 			{Name: "policy removed under the profile prefix", File: c30PMgrGo,
 				Old: "m.policysetsDataplane.RemovePolicySet(policyIDToString(policysets.PolicyNamePrefix, msg.Id))", New: "m.policysetsDataplane.RemovePolicySet(policyIDToString(policysets.ProfileNamePrefix, msg.Id))", Expect: "C30.ids/policy"},
 		},
@@ -148,6 +184,16 @@ func runC30(c *Ctx) {
 	c30Ids(c, p)
 	c30Chunk(c, p)
 	c30Alias(c, p, aclT)
+
+	c.Rule("C30.emptyset", "E-GUARD/E-DEP", "in every criterion-intersection helper of the tier flattener (func(a, b T) (T, error) returning ErrRuleIsNoOp): the no-op return is decided by a population test (type-checked: BitSet.None/Any/Count, len, == \"\"; never a capacity accessor such as BitSet.Len) of a value computed from both operands; a computed criterion is returned with nil error only behind the opposite test; an operand is returned unchanged only where the other operand is empty", 6)
+	c.Rule("C30.portspace", "E-CONST", "every bitset created for port lists in the closure of the criterion-intersection helpers has a constant capacity (go/constant value of the constructor argument) of at least 65537: bit 65536 is a guaranteed-clear sentinel, so the search for the end of a port range cannot fail", 1)
+	c.Rule("C30.combine", "E-EVAL", "the rule combiner func(*ACLPolicy, *ACLPolicy) *ACLPolicy, evaluated over its SSA for every match-criterion field of ACLPolicy written by the rule generators (helpers modelled by their contract) and the value pairs any/any, x/any, any/x, x/x, x/y, y/x: the result carries the intersection, is nil for different specific values, leaves the other criteria alone, keeps the next-tier rule's Action and modifies neither operand", 7)
+	c.Rule("C30.refidx", "E-FIELDS/E-DEP", "every proto.Rule field whose IP-set ids reach IPSetCache.GetIPSetMembers in the translator is read by the function(s) that build the reverse index policySet.IpSetIds, and every rule list rendered into policySet.Members is also handed to them", 7)
+	combiner, family, order, noOp := c30CombineFamily(c, p, aclT)
+	c30EmptySet(c, p, family, order)
+	c30PortSpace(c, p, order)
+	c30Combine(c, p, aclT, combiner, family, noOp)
+	c30RefIdx(c, p, ruleT)
 }
 
 // ------------------------------------------------------------ unsupported --
@@ -1017,5 +1063,555 @@ func c30Alias(c *Ctx, p *Prog, aclT *types.TypeName) {
 	}
 	if n == 0 {
 		c.Lost("no function of %s reads policySet.Members and returns ACL rules", c30PSPkg)
+	}
+}
+
+// =============================================================== flattener --
+//
+// The tier flattener (felix/dataplane/windows/flattener.go) replaces a `pass`
+// rule of one tier by its conjunction with every rule of the next tier.
+
+// c30CombineFamily: the rule combiner (the only func(*ACLPolicy, *ACLPolicy)
+// *ACLPolicy of the windows package) and the criterion-intersection helpers it
+// reaches: functions f(…T…, …T…) (T, error) of the package that can return
+// ErrRuleIsNoOp.  The value is the index of the two operand parameters.
+func c30CombineFamily(c *Ctx, p *Prog, aclT *types.TypeName) (combiner *ssa.Function, family map[*ssa.Function][2]int, order []*ssa.Function, noOp *ssa.Global) {
+	isACLPtr := func(t types.Type) bool {
+		pt, ok := t.Underlying().(*types.Pointer)
+		if !ok {
+			return false
+		}
+		n, ok := types.Unalias(pt.Elem()).(*types.Named)
+		return ok && n.Obj() == aclT
+	}
+	for _, fn := range c28PkgFuncs(c, p, c30WinPkg) {
+		sig := fn.Signature
+		if fn.Parent() != nil || sig.Recv() != nil || sig.Params().Len() != 2 || sig.Results().Len() != 1 {
+			continue
+		}
+		if isACLPtr(sig.Params().At(0).Type()) && isACLPtr(sig.Params().At(1).Type()) && isACLPtr(sig.Results().At(0).Type()) {
+			if combiner != nil {
+				c.Lost("more than one func(*hns.ACLPolicy, *hns.ACLPolicy) *hns.ACLPolicy in %s: %s and %s", c30WinPkg, fnName(combiner), fnName(fn))
+			}
+			combiner = fn
+		}
+	}
+	if combiner == nil {
+		c.Lost("the rule combiner func(*hns.ACLPolicy, *hns.ACLPolicy) *hns.ACLPolicy of %s", c30WinPkg)
+	}
+	noOpObj := p.LookupObj(c30PSPkg, "ErrRuleIsNoOp")
+	if sp := p.SSAPkg(c30PSPkg); sp != nil {
+		noOp, _ = sp.Members["ErrRuleIsNoOp"].(*ssa.Global)
+	}
+	if noOpObj == nil || noOp == nil {
+		c.Lost("policysets.ErrRuleIsNoOp")
+	}
+	winSSA := p.SSAPkg(c30WinPkg)
+	family = map[*ssa.Function][2]int{}
+	for fn := range p.closure(combiner) {
+		if fn.Pkg != winSSA || fn.Blocks == nil || fn == combiner {
+			continue
+		}
+		sig := fn.Signature
+		if sig.Results().Len() != 2 || !types.Identical(sig.Results().At(1).Type(), types.Universe.Lookup("error").Type()) {
+			continue
+		}
+		canNoOp := false
+		for _, r := range returnsOf(fn) {
+			if len(r.Results) == 2 {
+				vals := []ssa.Value{r.Results[1]}
+				if ph, ok := r.Results[1].(*ssa.Phi); ok {
+					vals = ph.Edges
+				}
+				for _, v := range vals {
+					if c30LoadsGlobal(v, noOpObj) {
+						canNoOp = true
+					}
+				}
+			}
+		}
+		if !canNoOp {
+			continue
+		}
+		var idx []int
+		for i := 0; i < sig.Params().Len(); i++ {
+			if types.Identical(sig.Params().At(i).Type(), sig.Results().At(0).Type()) {
+				idx = append(idx, i)
+			}
+		}
+		if len(idx) != 2 {
+			c.Lost("%s can return ErrRuleIsNoOp but does not have exactly two operands of its result type", fnName(fn))
+		}
+		family[fn] = [2]int{idx[0], idx[1]}
+		order = append(order, fn)
+	}
+	sort.Slice(order, func(i, j int) bool { return fnName(order[i]) < fnName(order[j]) })
+	if len(order) < 2 {
+		c.Lost("criterion-intersection helpers (func(a, b T) (T, error) returning ErrRuleIsNoOp) reached from %s: found %d, expected the CIDR and the port combiner", fnName(combiner), len(order))
+	}
+	return
+}
+
+func c30EmptySet(c *Ctx, p *Prog, family map[*ssa.Function][2]int, order []*ssa.Function) {
+	noOpObj := p.LookupObj(c30PSPkg, "ErrRuleIsNoOp")
+	for _, fn := range order {
+		name := fnName(fn)
+		idx := family[fn]
+		ops := []*ssa.Parameter{fn.Params[idx[0]], fn.Params[idx[1]]}
+		isOperand := func(v ssa.Value) bool { return v == ssa.Value(ops[0]) || v == ssa.Value(ops[1]) }
+		intersection := func(wantEmpty bool) EdgePred {
+			return func(cond ssa.Value, pol bool) bool {
+				f := c30SizeEdge(cond, pol)
+				if f.class != "pop" || f.empty != wantEmpty {
+					return false
+				}
+				at, _ := cond.(ssa.Instruction)
+				deps := c30ParamsOf(f.subjects, at)
+				return deps[ops[0]] && deps[ops[1]]
+			}
+		}
+		operandEmpty := func(except *ssa.Parameter) EdgePred {
+			return func(cond ssa.Value, pol bool) bool {
+				f := c30SizeEdge(cond, pol)
+				if f.class != "pop" || !f.empty || len(f.subjects) != 1 {
+					return false
+				}
+				return isOperand(f.subjects[0]) && f.subjects[0] != ssa.Value(except)
+			}
+		}
+		sameOperands := eqCond(true, func(v ssa.Value) bool { return v == ssa.Value(ops[0]) }, func(v ssa.Value) bool { return v == ssa.Value(ops[1]) })
+
+		sites, ok := c30ReturnSites(fn)
+		if !ok {
+			c.Undecided("C30.emptyset/"+name+"/noop", p.Pos(fn.Pos()), "%s merges its results in a way the return-site expansion does not handle", name)
+			continue
+		}
+		type verdict struct {
+			n       int
+			bad     []string
+			undec   []string
+			badSite token.Pos
+		}
+		var noop, nonempty, operand verdict
+		explain := func(v *verdict, s c30RetSite, what string) {
+			desc, capa, unk := c30DescribeGuards(s.at)
+			if v.badSite == token.NoPos {
+				v.badSite = s.at.Pos()
+			}
+			switch {
+			case len(capa) > 0:
+				v.bad = append(v.bad, fmt.Sprintf("%s; the guarding test reads %s, the capacity of the collection (how many elements it can hold), not how many it holds", what, strings.Join(capa, ", ")))
+			case len(unk) > 0:
+				v.undec = append(v.undec, fmt.Sprintf("%s; the guarding test uses %s, which is not in the table of population tests", what, strings.Join(unk, ", ")))
+			case len(desc) > 0:
+				v.bad = append(v.bad, fmt.Sprintf("%s; the tests in force there are only: %s", what, strings.Join(desc, "; ")))
+			default:
+				v.bad = append(v.bad, what+"; no emptiness test is in force there")
+			}
+		}
+		for _, s := range sites {
+			switch {
+			case c30LoadsGlobal(s.err, noOpObj):
+				noop.n++
+				if !guardedCut(s.at, intersection(true)) {
+					explain(&noop, s, "the no-op decision (return …, ErrRuleIsNoOp) is reachable without a test that the intersection of both operands is empty")
+				}
+			case isNilConst(s.err):
+				if prm, isP := s.res0.(*ssa.Parameter); isP && isOperand(prm) {
+					operand.n++
+					if !guardedCut(s.at, anyOf(operandEmpty(prm), sameOperands)) {
+						explain(&operand, s, fmt.Sprintf("operand %q is returned unchanged as the combined criterion on a path where the other operand is not known to be empty (= any): the other rule's restriction is dropped", prm.Name()))
+					}
+					continue
+				}
+				nonempty.n++
+				if !guardedCut(s.at, anyOf(intersection(false), operandEmpty(nil))) {
+					explain(&nonempty, s, "a computed criterion is returned with a nil error on a path where the intersection is not known to be non-empty: for disjoint operands the result is \"\" = match any")
+				}
+			}
+		}
+		emit := func(kind string, v verdict, okText string) {
+			if v.n == 0 {
+				return
+			}
+			key := "C30.emptyset/" + name + "/" + kind
+			site := p.Pos(fn.Pos())
+			if v.badSite != token.NoPos {
+				site = p.Pos(v.badSite)
+			}
+			switch {
+			case len(v.bad) > 0:
+				c.Violate(key, site, "%s: %s", name, strings.Join(v.bad, " | "))
+			case len(v.undec) > 0:
+				c.Undecided(key, site, "%s: %s", name, strings.Join(v.undec, " | "))
+			default:
+				c.Ok(key, site, "%s (%d return site(s))", okText, v.n)
+			}
+		}
+		emit("noop", noop, "every return of ErrRuleIsNoOp is decided by a population test showing the intersection of both operands empty")
+		emit("nonempty", nonempty, "every computed criterion returned with a nil error is behind a test showing the intersection non-empty (or an operand empty)")
+		emit("operand", operand, "an operand is returned unchanged only where the other operand is empty")
+	}
+}
+
+func c30PortSpace(c *Ctx, p *Prog, order []*ssa.Function) {
+	// highest port 65535 → bits 0..65535; one more bit (65536) that is never set, so that the
+	// search for the clear bit ending a range always succeeds: capacity ≥ 65537
+	need := constant.MakeInt64(int64(^uint16(0)) + 2)
+	winSSA := p.SSAPkg(c30WinPkg)
+	var fns []*ssa.Function
+	for fn := range p.closure(order...) {
+		if fn.Pkg == winSSA && fn.Blocks != nil {
+			fns = append(fns, fn)
+		}
+	}
+	sort.Slice(fns, func(i, j int) bool { return fnName(fns[i]) < fnName(fns[j]) })
+	n := 0
+	for _, fn := range fns {
+		for _, cs := range callsIn(fn, true, func(f *types.Func) bool {
+			sig := f.Type().(*types.Signature)
+			if f.Pkg() == nil || f.Pkg().Path() != c30BitsetPkg || sig.Recv() != nil || sig.Results().Len() == 0 {
+				return false
+			}
+			return namedTypeName(sig.Results().At(0).Type()) == "BitSet"
+		}) {
+			n++
+			key := "C30.portspace/" + fnName(topFn(fn))
+			site := p.Pos(cs.Instr.Pos())
+			if cs.Callee.Name() != "New" && cs.Callee.Name() != "MustNew" {
+				c.Undecided(key, site, "port bitset created with bitset.%s: its capacity is not a constructor argument", cs.Callee.Name())
+				continue
+			}
+			cv, ok := constOf(cs.Common().Args[0])
+			if !ok || cv.Kind() != constant.Int {
+				c.Undecided(key, site, "the capacity handed to bitset.%s is not a constant: %s", cs.Callee.Name(), path(cs.Common().Args[0]))
+				continue
+			}
+			c.Check(constant.Compare(cv, token.GEQ, need), key, site,
+				fmt.Sprintf("port bitset capacity is the constant %s ≥ %s: bit 65536 exists and is never set, so every range of set bits ends at a clear bit", cv.ExactString(), need.ExactString()),
+				fmt.Sprintf("the port bitset is created with capacity %s (the constant expression evaluates to that; `^` is XOR in Go), below %s: the set then only grows to the highest port set, so for a port list whose intersection contains the highest bit NextClear finds no clear bit after it and the port combiner panics (\"no end of range\") — e.g. 1-65535 ∩ 65535", cv.ExactString(), need.ExactString()))
+		}
+	}
+	if n == 0 {
+		c.Lost("no bitset constructor call in the closure of the criterion-intersection helpers (%d functions)", len(fns))
+	}
+}
+
+// c30NonCriteria: fields of hns.ACLPolicy written by the rule generators that are
+// not match criteria, each with the reason.
+var c30NonCriteria = map[string]string{
+	"Type":      "constant ACL",
+	"RuleType":  "scope of the rule (Switch/Host), not a match on the connection",
+	"Id":        "identifier only",
+	"Action":    "the verdict",
+	"Direction": "all rules handed to the flattener were selected for one direction (GetPolicySetRules)",
+	"Priority":  "ordering, rewritten after flattening",
+}
+
+func c30Combine(c *Ctx, p *Prog, aclT *types.TypeName, combiner *ssa.Function, family map[*ssa.Function][2]int, noOp *ssa.Global) {
+	st, _ := aclT.Type().Underlying().(*types.Struct)
+	if st == nil {
+		c.Lost("hns.ACLPolicy is not a struct")
+	}
+	// criterion universe: ACLPolicy fields the rule generators of the policysets package write
+	written := map[string]bool{}
+	for _, fn := range c28PkgFuncs(c, p, c30PSPkg) {
+		allInstrs(fn, false, func(_ *ssa.Function, in ssa.Instruction) {
+			if s, ok := in.(*ssa.Store); ok {
+				if fa, isFA := s.Addr.(*ssa.FieldAddr); isFA {
+					if n, isN := types.Unalias(derefType(fa.X.Type())).(*types.Named); isN && n.Obj() == aclT {
+						written[fieldVar(fa).Name()] = true
+					}
+				}
+			}
+		})
+	}
+	var criteria []string
+	for _, f := range sortedKeys(written) {
+		if c30NonCriteria[f] == "" {
+			criteria = append(criteria, f)
+		}
+	}
+	for f := range c30NonCriteria {
+		if !written[f] {
+			c.Lost("hns.ACLPolicy.%s (listed as a non-criterion) is no longer written by %s", f, c30PSPkg)
+		}
+	}
+	if len(criteria) < 5 {
+		c.Lost("match-criterion fields of hns.ACLPolicy written by %s: %v (expected at least Protocol and the four address/port lists)", c30PSPkg, criteria)
+	}
+	// the 'any' value of scalar criteria: the constant the rule constructor stores
+	newRule := p.Func(c30PSPkg, "PolicySets.NewRule")
+	if newRule == nil {
+		c.Lost("PolicySets.NewRule")
+	}
+	anyOfField := map[string]any{}
+	x, y := map[string]any{}, map[string]any{}
+	site := p.Pos(combiner.Pos())
+	var usable []string
+	for _, f := range criteria {
+		obj, _, _ := types.LookupFieldOrMethod(aclT.Type(), true, aclT.Pkg(), f)
+		fv := obj.(*types.Var)
+		b, _ := fv.Type().Underlying().(*types.Basic)
+		switch {
+		case b != nil && b.Info()&types.IsString != 0:
+			anyOfField[f], x[f], y[f] = "", "A", "B"
+		case b != nil && b.Info()&types.IsInteger != 0:
+			var consts []int64
+			allInstrs(newRule, false, func(_ *ssa.Function, in ssa.Instruction) {
+				if s, ok := in.(*ssa.Store); ok && fieldVar(s.Addr) == fv {
+					if cv, isC := constOf(s.Val); isC {
+						if n, exact := constant.Int64Val(cv); exact {
+							consts = append(consts, n)
+						}
+					}
+				}
+			})
+			if len(consts) != 1 {
+				c.Lost("the 'any' value of hns.ACLPolicy.%s: PolicySets.NewRule stores %v into it (expected one constant)", f, consts)
+			}
+			anyOfField[f] = consts[0]
+			vals := []int64{}
+			for v := int64(6); len(vals) < 2; v += 11 {
+				if v != consts[0] {
+					vals = append(vals, v)
+				}
+			}
+			x[f], y[f] = vals[0], vals[1]
+		default:
+			c.Undecided("C30.combine/ACLPolicy."+f, site, "criterion field of type %s: the evaluator has no model of its 'any' value", fv.Type())
+			continue
+		}
+		usable = append(usable, f)
+	}
+	base := func(who string) map[string]any {
+		m := map[string]any{"Action": who + "-action", "Id": who + "-id"}
+		for _, f := range usable {
+			m[f] = anyOfField[f]
+		}
+		return m
+	}
+	problem := map[string]string{}
+	undec := map[string]string{}
+	note := func(m map[string]string, k, v string) {
+		if m[k] == "" {
+			m[k] = v
+		}
+	}
+	nEval := 0
+	name := fnName(combiner)
+	for _, f := range usable {
+		type tc struct {
+			a, b any
+			want any // nil: no rule
+		}
+		a0 := anyOfField[f]
+		cases := []tc{{a0, a0, a0}, {x[f], a0, x[f]}, {a0, x[f], x[f]}, {x[f], x[f], x[f]}, {x[f], y[f], nil}, {y[f], x[f], nil}}
+		for _, t := range cases {
+			f1, f2 := base("r1"), base("r2")
+			f1[f], f2[f] = t.a, t.b
+			out, err := c30EvalCombine(combiner, st, f1, f2, family, noOp)
+			nEval++
+			call := fmt.Sprintf("%s(pass rule with %s=%#v, next-tier rule with %s=%#v; every other criterion 'any')", name, f, t.a, f, t.b)
+			if err != nil {
+				if _, outside := err.(c30Outside); outside {
+					note(undec, f, call+": "+err.Error())
+				} else {
+					note(problem, f, call+": "+err.Error())
+				}
+				continue
+			}
+			if len(out.operandsChanged) > 0 {
+				note(problem, "operands-unchanged", fmt.Sprintf("%s changes %v of its operands: the next-tier rule is combined with every pass rule of the tier above, so later combinations (and the tier itself) see the narrowed rule", call, out.operandsChanged))
+			}
+			switch {
+			case t.want == nil && !out.isNil:
+				note(problem, f, fmt.Sprintf("%s returns a rule with %s=%#v; the two rules name different specific values, no connection matches both, so the combination must be dropped (nil) — the flattened tier otherwise applies the next-tier rule to traffic the pass rule never handed on", call, f, out.fields[f]))
+			case t.want != nil && out.isNil:
+				note(problem, f, fmt.Sprintf("%s returns no rule; expected a rule with %s=%#v", call, f, t.want))
+			case t.want != nil:
+				if !reflect.DeepEqual(out.fields[f], t.want) {
+					note(problem, f, fmt.Sprintf("%s returns a rule with %s=%#v; expected %#v (the intersection of the two)", call, f, out.fields[f], t.want))
+				}
+				for _, g := range usable {
+					if g != f && !reflect.DeepEqual(out.fields[g], anyOfField[g]) {
+						note(problem, g, fmt.Sprintf("%s returns a rule with %s=%#v although both rules leave %s as 'any'", call, g, out.fields[g], g))
+					}
+				}
+				if out.fields["Action"] != "r2-action" {
+					note(problem, "ACLPolicy.Action", fmt.Sprintf("%s returns a rule with Action=%#v: the combined rule must carry the next-tier rule's verdict", call, out.fields["Action"]))
+				}
+			}
+		}
+	}
+	for _, f := range usable {
+		key := "C30.combine/ACLPolicy." + f
+		switch {
+		case problem[f] != "":
+			c.Violate(key, site, "%s", problem[f])
+		case undec[f] != "":
+			c.Undecided(key, site, "%s", undec[f])
+		default:
+			c.Ok(key, site, "any/any, x/any, any/x, x/x give the intersection, x/y and y/x give no rule; other criteria untouched")
+		}
+	}
+	anyUndec := ""
+	for _, f := range usable {
+		if undec[f] != "" {
+			anyUndec = undec[f]
+		}
+	}
+	for _, k := range []struct{ key, pk, ok string }{
+		{"C30.combine/ACLPolicy.Action", "ACLPolicy.Action", "the combined rule carries the next-tier rule's Action in all evaluated cases"},
+		{"C30.combine/operands-unchanged", "operands-unchanged", "neither operand is modified in any evaluated case"},
+	} {
+		switch {
+		case problem[k.pk] != "":
+			c.Violate(k.key, site, "%s", problem[k.pk])
+		case anyUndec != "":
+			c.Undecided(k.key, site, "%s", anyUndec)
+		default:
+			c.Ok(k.key, site, "%s (%d evaluations)", k.ok, nEval)
+		}
+	}
+}
+
+// ----------------------------------------------------------------- refidx --
+
+func c30RefIdx(c *Ctx, p *Prog, ruleT *types.TypeName) {
+	members, _ := p.LookupObj(c30PSPkg, "policySet.Members").(*types.Var)
+	ipSetIds, _ := p.LookupObj(c30PSPkg, "policySet.IpSetIds").(*types.Var)
+	if members == nil || ipSetIds == nil {
+		c.Lost("policySet.Members / policySet.IpSetIds")
+	}
+	getMembers, _ := p.LookupObj(c30PSPkg, "IPSetCache.GetIPSetMembers").(*types.Func)
+	if getMembers == nil {
+		c.Lost("IPSetCache.GetIPSetMembers")
+	}
+	pkgFns := c28PkgFuncs(c, p, c30PSPkg)
+	scope := map[*ssa.Function]bool{}
+	for _, fn := range pkgFns {
+		scope[fn] = true
+	}
+	isRuleField := func(fv *types.Var) bool {
+		st := ruleT.Type().Underlying().(*types.Struct)
+		for i := 0; i < st.NumFields(); i++ {
+			if st.Field(i) == fv {
+				return true
+			}
+		}
+		return false
+	}
+	isRuleList := func(t types.Type) bool {
+		sl, ok := t.Underlying().(*types.Slice)
+		if !ok {
+			return false
+		}
+		n, ok := types.Unalias(derefType(sl.Elem())).(*types.Named)
+		return ok && n.Obj() == ruleT
+	}
+	// (1) T: the fields of proto.Rule whose value reaches the id argument of IPSetCache.GetIPSetMembers
+	expand := newC30Back(nil, scope)
+	nSinks := 0
+	var sinkPos token.Pos
+	for _, fn := range pkgFns {
+		for _, cs := range callsIn(fn, false, func(f *types.Func) bool { return f == getMembers }) {
+			args := cs.Args()
+			if len(args) != 2 {
+				c.Lost("IPSetCache.GetIPSetMembers call with %d arguments", len(args))
+			}
+			nSinks++
+			sinkPos = cs.Instr.Pos()
+			expand.walk(args[1])
+		}
+	}
+	if nSinks == 0 {
+		c.Lost("no call of IPSetCache.GetIPSetMembers in %s", c30PSPkg)
+	}
+	var expanded []string
+	for fv := range expand.fields {
+		if isRuleField(fv) {
+			expanded = append(expanded, fv.Name())
+		}
+	}
+	sort.Strings(expanded)
+	if len(expanded) == 0 {
+		c.Lost("no field of proto.Rule reaches IPSetCache.GetIPSetMembers")
+	}
+	// (2) the producers of policySet.Members / policySet.IpSetIds and the rule lists handed to them
+	type side struct {
+		lists   map[string]bool
+		callees map[*ssa.Function]bool
+		pos     token.Pos
+	}
+	collect := func(field *types.Var) side {
+		sd := side{lists: map[string]bool{}, callees: map[*ssa.Function]bool{}}
+		for _, fn := range pkgFns {
+			allInstrs(fn, false, func(_ *ssa.Function, in ssa.Instruction) {
+				st, ok := in.(*ssa.Store)
+				if !ok {
+					return
+				}
+				if _, isFA := st.Addr.(*ssa.FieldAddr); !isFA || fieldVar(st.Addr) != field {
+					return
+				}
+				sd.pos = st.Pos()
+				b := newC30Back(nil, nil)
+				b.walk(st.Val)
+				for _, ci := range b.calls {
+					if f := calleeFn(ci.Common()); f != nil && f.Blocks != nil && scope[f] {
+						sd.callees[f] = true
+					}
+				}
+				for fv, reads := range b.fields {
+					if !isRuleList(fv.Type()) {
+						continue
+					}
+					for _, r := range reads {
+						var base types.Type
+						switch x := r.(type) {
+						case *ssa.FieldAddr:
+							base = x.X.Type()
+						case *ssa.Field:
+							base = x.X.Type()
+						case *ssa.Call:
+							if a := c30CallArgs(x); len(a) > 0 {
+								base = a[0].Type()
+							}
+						}
+						if base == nil {
+							continue
+						}
+						sd.lists[namedTypeName(base)+"."+fv.Name()] = true
+					}
+				}
+			})
+		}
+		return sd
+	}
+	rendered, indexed := collect(members), collect(ipSetIds)
+	if len(rendered.callees) == 0 || len(rendered.lists) == 0 {
+		c.Lost("producers of policySet.Members: %d functions, rule lists %v", len(rendered.callees), sortedKeys(rendered.lists))
+	}
+	if len(indexed.callees) == 0 {
+		c.Lost("no function of %s produces the value stored into policySet.IpSetIds", c30PSPkg)
+	}
+	var collectors []*ssa.Function
+	var collectorNames []string
+	for f := range indexed.callees {
+		collectors = append(collectors, f)
+		collectorNames = append(collectorNames, fnName(f))
+	}
+	sort.Strings(collectorNames)
+	read := fieldsRead(p.closure(collectors...), ruleT.Type())
+	for _, f := range expanded {
+		c.Check(len(read[f]) > 0, "C30.refidx/Rule."+f, p.Pos(collectors[0].Pos()),
+			fmt.Sprintf("the reverse index (policySet.IpSetIds, built by %v) reads Rule.%s, whose members the translator expands", collectorNames, f),
+			fmt.Sprintf("the rule translator expands the members of the IP sets named by proto.Rule.%s into the cached HNS rules (it reaches IPSetCache.GetIPSetMembers at %s), but %v, which builds the reverse index policySet.IpSetIds, never reads that field: when such an IP set changes, ProcessIpSetUpdate finds no policy set to re-render and the cached rules keep the old members", f, p.Pos(sinkPos), collectorNames))
+	}
+	for _, l := range sortedKeys(rendered.lists) {
+		c.Check(indexed.lists[l], "C30.refidx/"+l, p.Pos(indexed.pos),
+			"rule list handed both to the translator (policySet.Members) and to the reverse-index collector (policySet.IpSetIds)",
+			fmt.Sprintf("the rules of %s are rendered into policySet.Members but are not handed to %v, which builds policySet.IpSetIds (it gets %v): IP sets referenced only by those rules are missing from the reverse index, their later changes do not re-render the policy set", l, collectorNames, sortedKeys(indexed.lists)))
 	}
 }
